@@ -44,11 +44,16 @@ SEQ_PATHS = ["lst", "lst", "people", "nested", "m/lst", "elst", "s", "x", "none"
 
 DEFINES = ["v s", "v n; w string:W", "global g s", "v lst", "v missing | string:dflt", "local v people; global h n", "v nothing", "x title",
            "v string:a; global g2 string:b", "v missing; global g3 nothing", "global gg string:G; v string:uses ${gg}", "global gg2 s; w gg2",
-           "v string:L; global gl string:after ${v}", "global ga n; global gb ga; v gb", "v n; w v; global gw w", "global gx string:1; global gx string:2; v gx"]
+           "v string:L; global gl string:after ${v}", "global ga n; global gb ga; v gb", "v n; w v; global gw w", "global gx string:1; global gx string:2; v gx",
+           # runs of blanks and a tab inside the expression are part of the text it denotes
+           "v string:NAME      SIZE  TYPE", "global gsp string:a\tb   c; w gsp", "v string:  two  leading and  inner"]
 
 
 # templates that once separated a seeded defect from the real thing: they always run first
 FIXED = [
+    # white space inside a defined string: fixed-width text keeps its columns
+    [("elem", "pre", [], {"define": "row string:NAME      SIZE  TYPE; global sep string:a\tb   c", "content": "row"}, [("text", "x")]),
+     ("elem", "i", [], {"content": "sep"}, [])],
     # exists: / nocall: with blanks around the alternation bar, and on a repeat variable as a whole
     [("elem", "b", [], {"condition": "exists: s | missing"}, [("text", "x")]), ("elem", "i", [], {"content": "nocall: s | n"}, [("text", "y")]),
      ("elem", "u", [], {"condition": "not:exists: missing | s"}, [("text", "z")])],
